@@ -80,5 +80,27 @@ def main(rest):
             v = res[m["property"]]
             print(f"{m['id']}: kind={m['kind'][:10]} tests={m['baseline_tests']} rc={v[0]} violations={v[1]}", flush=True)
         return 0
+    if rest[0] == "all":
+        # every design-phase mutant and every seeded change against its property; results are
+        # written to /verif/selftest_results.json (committed, referenced by DESIGN.md section 6)
+        out = {}
+        idx = json.load(open(os.path.join(core.VERIF, "mutants", "index.json")))
+        for m in idx:
+            res = run_on_mutant(os.path.join(core.VERIF, "mutants", m["id"] + ".diff"), [m["property"]])
+            v = res[m["property"]]
+            out["mutants/" + m["id"]] = {"property": m["property"], "kind": m["kind"], "tests": m["baseline_tests"],
+                                         "rc": v[0], "violations": v[1]}
+            print(f"{m['id']}: rc={v[0]} violations={v[1]}", flush=True)
+            json.dump(out, open(os.path.join(core.VERIF, "selftest_results.json"), "w"), indent=1)
+        base = os.path.join(core.VERIF, "seeded")
+        for d in sorted(os.listdir(base)):
+            meta = json.load(open(os.path.join(base, d, "meta.json")))
+            res = run_on_mutant(os.path.join(base, d, "patch.diff"), [meta["property"]])
+            v = res[meta["property"]]
+            out["seeded/" + d] = {"property": meta["property"], "needs": meta["needs"], "rc": v[0], "violations": v[1],
+                                  "status": meta.get("status", "breaking")}
+            print(f"{d}: rc={v[0]} violations={v[1]}", flush=True)
+            json.dump(out, open(os.path.join(core.VERIF, "selftest_results.json"), "w"), indent=1)
+        return 0
     print(__doc__)
     return 2
